@@ -1,12 +1,12 @@
 #!/bin/bash
 # Run a check against ANOTHER checkout of DemoHn/Zn (e.g. a scratch worktree holding a seeded
 # change) without touching /repo: a temporary copy of /verif is pointed at it.
-#   tools/altcheck.sh <repo-dir> <CNN> [quick|thorough]
+#   tools/altcheck.sh <repo-dir> <CNN> [quick|thorough] [run,run,...]
 set -e -o pipefail
-REPO="$1"; PROP="$2"; TIER="${3:-quick}"
+REPO="$1"; PROP="$2"; TIER="${3:-quick}"; ONLY="${4:+--only $4}"
 ALT=$(mktemp -d /tmp/verif-alt-XXXXXX)
 trap 'rm -rf "$ALT"' EXIT
 rsync -a --exclude .out --exclude bin --exclude .git --exclude replays /verif/ "$ALT"/
 sed -i "s#=> /repo#=> $REPO#" "$ALT/go.mod" "$ALT/pm/go.mod"
 cd "$ALT"
-VERIF_REPO="$REPO" ./check "$PROP" --tier "$TIER" 2>&1 | sed "s#$ALT#/verif#g"
+VERIF_REPO="$REPO" ./check "$PROP" --tier "$TIER" $ONLY 2>&1 | sed "s#$ALT#/verif#g"
